@@ -15,6 +15,9 @@
 #include <amgcl/mpi/solver/runtime.hpp>
 #include <amgcl/mpi/direct_solver/runtime.hpp>
 #include <amgcl/mpi/partition/runtime.hpp>
+#include <amgcl/mpi/subdomain_deflation.hpp>
+#include <amgcl/mpi/block_preconditioner.hpp>
+#include <amgcl/preconditioner/runtime.hpp>
 #include <set>
 #include "harness_main.hpp"
 
@@ -64,6 +67,17 @@ typedef amgcl::mpi::make_solver<
         amgcl::runtime::mpi::partition::wrapper<DBackend> >,
     amgcl::runtime::mpi::solver::wrapper<DBackend> > Solver;
 
+typedef amgcl::mpi::subdomain_deflation<
+    amgcl::runtime::preconditioner<DBackend>,
+    amgcl::runtime::mpi::solver::wrapper<DBackend>,
+    amgcl::runtime::mpi::direct::solver<double> > SDD;
+typedef amgcl::mpi::make_solver<
+    amgcl::mpi::block_preconditioner< amgcl::runtime::preconditioner<DBackend> >,
+    amgcl::runtime::mpi::solver::wrapper<DBackend> > BPSolver;
+enum { K_MPI_AMG = 0, K_SDD = 1, K_BLOCK = 2 };
+static const char *kind_names[] = { "mpi::make_solver", "mpi::subdomain_deflation", "mpi::block_preconditioner" };
+static const char *local_coarsening_names[] = { "ruge_stuben", "aggregation", "smoothed_aggregation", "smoothed_aggr_emin" };
+
 static const char *coarsening_names[] = { "aggregation", "smoothed_aggregation" };
 static const char *relax_names[] = { "gauss_seidel", "ilu0", "iluk", "ilup", "ilut", "damped_jacobi", "spai0", "spai1", "chebyshev" };
 static const char *solver_names[] = { "cg", "bicgstab", "bicgstabl", "gmres", "lgmres", "fgmres", "idrs", "richardson" };
@@ -94,6 +108,8 @@ Plan generate(uint64_t seed, uint64_t run, bool thorough) {
     p.set("fseed", (long)(r.next() >> 16), 0);
     p.set("nt", r.chance(0.7) ? 1 : 2, 1);
     { static const long nsc[] = { 1, 1, 2, 2, 2, 2, 3 }; p.set("nullspace", r.chance(0.35) ? nsc[r.below(7)] : 0, 0); }      // near-null-space vectors handed to the distributed coarsening
+    { double u = r.unit(); p.set("kind", u < 0.7 ? K_MPI_AMG : u < 0.85 ? K_SDD : K_BLOCK, 0); }
+    p.set("local_relax_only", r.chance(0.4) ? 1 : 0, 0); p.set("local_coarsening", r.range(0, 2), 0);      // (energy-minimising coarsening of tiny subdomain levels degenerates: recorded under C02) p.set("ndv", r.range(1, 2), 1);
     draw_schedule(r, p.sched, (int)p.get("R"));
     return p;
 }
@@ -103,19 +119,21 @@ Result execute(const Plan &p) {
     int R = (int)p.get("R");
     gen::Csr A = gen::make_matrix((int)p.get("family"), p.get("n"), (uint64_t)p.get("mseed"), (int)p.get("contrast"), 1);
     const long n = A.n;
+    const long kind = p.get("kind", K_MPI_AMG);
     sim::rng pr((uint64_t)p.get("pseed"), "partition");
     // near-null-space vectors only with plain aggregation: there P is the tentative prolongation itself, so the aggregates (and the
     // recorded small-aggregate finding) can be read off the recorded P; with smoothed aggregation they cannot
-    const long nscols = (n >= R && p.get("coarsening") == 0) ? p.get("nullspace", 0) : 0;
+    const long nscols = (n >= R && p.get("coarsening") == 0 && kind == K_MPI_AMG) ? p.get("nullspace", 0) : 0;
     // (a rank without rows cannot describe its slice of the near-null-space vectors through the parameter tree: no empty ranks then)
-    std::vector<long> rp = draw_partition(pr, n, R, (p.get("allow_empty") != 0 && !nscols) || n < R);
+    // (subdomain deflation needs a non-empty subdomain per rank: an empty one adds a zero row to the deflated matrix)
+    std::vector<long> rp = draw_partition(pr, n, R, (p.get("allow_empty") != 0 && !nscols && kind != K_SDD) || n < R);
     std::vector<double> NB((size_t)n * std::max<long>(nscols, 1));
     for (long i = 0; i < n; ++i) for (long k = 0; k < nscols; ++k) NB[(size_t)i * nscols + k] = k == 0 ? 1.0 : std::pow((double)(i + 1) / n, (double)k) + 0.25 * std::sin((double)(i * (k + 1)));
     std::vector<double> f = gen::make_vector(n, (uint64_t)p.get("vseed"), 0);
     long coarsening = p.get("coarsening"), relax = p.get("relax"), solver = p.get("solver");
     std::string nsclass = "none";      // none | ok | deficient-aggregate (an aggregate with fewer points than near-null-space vectors)
     auto sig = [&](const char *oracle, const char *clause, const std::string &detail) {
-        Violation v; v.oracle = oracle; v.add("component", "mpi::make_solver"); v.add("clause", clause); v.add("coarsening", coarsening_names[coarsening]); v.add("relax", relax_names[relax]); v.add("solver", solver_names[solver]);
+        Violation v; v.oracle = oracle; v.add("component", kind_names[kind]); v.add("clause", clause); v.add("coarsening", coarsening_names[coarsening]); v.add("relax", relax_names[relax]); v.add("solver", solver_names[solver]);
         v.add("ranks", R >= 2 ? "R>=2" : "R=1"); v.add("nullspace", nsclass); v.detail = detail; return v; };
     boost::property_tree::ptree prm;
     prm.put("precond.coarsening.type", coarsening_names[coarsening]);
@@ -143,6 +161,29 @@ Result execute(const Plan &p) {
         gen::Csr S; S.n = r1 - r0; S.m = n; S.ptr.push_back(0);
         for (long i = r0; i < r1; ++i) { for (ptrdiff_t j = A.ptr[i]; j < A.ptr[i+1]; ++j) { S.col.push_back(A.col[j]); S.val.push_back(A.val[j]); } S.ptr.push_back((ptrdiff_t)S.col.size()); }
         auto dA = std::make_shared<DM>(comm, std::make_tuple((size_t)S.n, std::ref(S.ptr), std::ref(S.col), std::ref(S.val)));
+        if (kind != K_MPI_AMG) {
+            boost::property_tree::ptree q; const char *pre = kind == K_SDD ? "local." : "precond.";
+            if (p.get("local_relax_only")) { q.put(std::string(pre) + "class", "relaxation"); q.put(std::string(pre) + "type", relax_names[relax]); }
+            else { q.put(std::string(pre) + "class", "amg"); q.put(std::string(pre) + "coarsening.type", local_coarsening_names[p.get("local_coarsening")]); q.put(std::string(pre) + "relax.type", relax_names[relax]); q.put(std::string(pre) + "coarse_enough", p.get("coarse_enough")); }
+            std::vector<double> fl(f.begin() + r0, f.begin() + r1), xl(r1 - r0, 0.0); size_t it; double rs;
+            if (kind == K_SDD) {
+                long minloc = n; for (int q2 = 0; q2 < R; ++q2) minloc = std::min(minloc, rp[q2+1] - rp[q2]);
+                const long nloc = r1 - r0; const long ndv = minloc >= 2 ? p.get("ndv", 1) : 1;      // the deflation vectors of a subdomain must be independent
+                std::function<double(ptrdiff_t, unsigned)> dv = [nloc](ptrdiff_t i, unsigned j) { return j == 0 ? 1.0 : (double)(i + 1) / (double)(nloc > 0 ? nloc : 1); };
+                q.put("isolver.type", solver_names[solver]); q.put("isolver.maxiter", 200); q.put("dsolver.type", "skyline_lu");
+                q.put("num_def_vec", ndv); q.put("def_vec", static_cast<void*>(&dv));
+                size_t chunk = (size_t)S.n;
+                SDD solve(comm, std::tie(chunk, S.ptr, S.col, S.val), q);
+                std::tie(it, rs) = solve(fl, xl);
+            } else {
+                q.put("solver.type", solver_names[solver]); q.put("solver.maxiter", 200);
+                BPSolver solve(comm, dA, q);
+                std::tie(it, rs) = solve(fl, xl);
+            }
+            iters[rank] = (double)it; resid[rank] = rs;
+            for (long i = r0; i < r1; ++i) x[i] = xl[i - r0];
+            return;
+        }
         boost::property_tree::ptree lprm = prm;
         if (nscols > 0) { lprm.put("precond.coarsening.aggr.nullspace.cols", nscols); lprm.put("precond.coarsening.aggr.nullspace.rows", r1 - r0); lprm.put("precond.coarsening.aggr.nullspace.B", &NB[(size_t)r0 * nscols]); }
         Solver solve(comm, dA, lprm);
@@ -236,16 +277,17 @@ Result execute(const Plan &p) {
                 for (long c = 0; c < nC; ++c) if (colcnt[c] == 0) { res.fail(sig("coarsening-structure", "no-empty-aggregate", fmt("level %zu: coarse unknown %ld has no fine member", l, c))); break; }
             }
             // (worlds with near-null-space vectors run on a hierarchy truncated by max_levels: no convergence promise there)
-            if (finite && nscols == 0 && (solver == 7 ? !(resid[0] < 1.0) : !(resid[0] < tol))) res.fail(sig("converges-on-spd", solver == 7 ? "richardson-converges" : "within-200-iterations", fmt("%.0f iterations, residual %.3g (n=%ld, %d ranks)", iters[0], resid[0], n, R)));
+            // (subdomain deflation / block preconditioner: promised only with a multigrid inside the subdomains, a bare smoother is no solver)
+            if (finite && nscols == 0 && !(kind != K_MPI_AMG && p.get("local_relax_only")) && (solver == 7 ? !(resid[0] < 1.0) : !(resid[0] < tol))) res.fail(sig("converges-on-spd", solver == 7 ? "richardson-converges" : "within-200-iterations", fmt("%.0f iterations, residual %.3g (n=%ld, %d ranks)", iters[0], resid[0], n, R)));
         }
     }
     res.nontrivial = R >= 2 && out.stats.messages >= 1;
     uint64_t key = gen::digest(A); for (int r = 0; r <= R; ++r) key = sim::hash_combine(key, (uint64_t)rp[r]);
-    key = sim::hash_combine(key, (uint64_t)(coarsening * 1000 + relax * 100 + solver * 10 + p.get("repart"))); key = sim::hash_combine(key, (uint64_t)(mc.late_send_read * 4 + mc.recv_poison * 2 + mc.rendezvous + 8 * p.get("coarse_enough")));
+    key = sim::hash_combine(key, (uint64_t)(coarsening * 1000 + relax * 100 + solver * 10 + p.get("repart") + 100000 * kind + 1000000 * p.get("local_relax_only", 0) + 10000000 * p.get("local_coarsening", 0))); key = sim::hash_combine(key, (uint64_t)(mc.late_send_read * 4 + mc.recv_poison * 2 + mc.rendezvous + 8 * p.get("coarse_enough")));
     for (size_t i = 0; i < out.sched.deviations.size() && i < 64; ++i) key = sim::hash_combine(key, out.sched.deviations[i].first * 31 + out.sched.deviations[i].second);
     res.key = key; res.hash = sim::hash_combine(res.hash, vec_digest(x)); res.hash = sim::hash_combine(res.hash, (uint64_t)iters[0]);
     js::Value s = js::Value::object();
-    s.set("ranks", R); s.set("family", gen::family_name((int)p.get("family"))); s.set("n", n); s.set("coarsening", coarsening_names[coarsening]); s.set("relax", relax_names[relax]); s.set("solver", solver_names[solver]);
+    s.set("kind", kind_names[kind]); s.set("ranks", R); s.set("family", gen::family_name((int)p.get("family"))); s.set("n", n); s.set("coarsening", coarsening_names[coarsening]); s.set("relax", relax_names[relax]); s.set("solver", solver_names[solver]);
     js::Value jp = js::Value::array(); for (int r = 0; r <= R; ++r) jp.push(rp[r]); s.set("row_partition", jp);
     s.set("coarse_enough", p.get("coarse_enough")); s.set("nullspace_vectors", nscols); s.set("repartition", (long)repart_on); s.set("late_send_read", (long)mc.late_send_read); s.set("recv_poison", (long)mc.recv_poison); s.set("rendezvous", (long)mc.rendezvous);
     s.set("strategy", sim::strategy_name(p.sched.strategy)); s.set("messages", (unsigned long long)out.stats.messages); s.set("collectives", (unsigned long long)out.stats.collectives); s.set("iters", iters[0]); s.set("resid", resid[0]);
